@@ -127,7 +127,12 @@ func (p *Parser) parseFilter() (*filterCall, *Error) {
 		}
 
 		// Get filter argument expression
+		// (it is evaluated below the filter call: one more level of nesting)
+		if err := p.deeper(1); err != nil {
+			return nil, err
+		}
 		v, err := p.parseVariableOrLiteral()
+		p.depth--
 		if err != nil {
 			return nil, err
 		}
